@@ -258,7 +258,7 @@ def _guards(run, F, PV, C):
                       where=iw.loc(), message="x509 element: base64 decoding errors are not turned into ValueError")
 
 
-def _ctor_reads(run, ci):
+def _ctor_reads(run, ci, PV=None):
     """{key: (decoder pattern with M, stored field)} from `self._f = dec(element_map[...])`."""
     P, A = run.P, run.A
     out = {}
@@ -267,11 +267,17 @@ def _ctor_reads(run, ci):
             m = c.methods.get(mname)
             if m is None:
                 continue
+            gm_ = A.cfg(m, ci)
             for n in A.own_nodes(m):
                 if isinstance(n, ast.Assign) and len(n.targets) == 1 and isinstance(n.targets[0], ast.Attribute) \
                         and norm(n.targets[0].value) == "self":
                     fld = n.targets[0].attr
                     src = norm(n.value)
+                    if PV is not None and "element_map" not in src:
+                        # the stored value held in a temporary: what the temporary stands for at the store
+                        xs = {x for nn in gm_.nodes_of(n) for x in PV.expand_consistent(m, ci, n.value, nn, stop=("element_map",))}
+                        if len(xs) == 1:
+                            src = next(iter(xs))
                     mm = re.search(r"element_map(?:\[['\"](\w+)['\"]\]|\.get\(['\"](\w+)['\"]\))", src)
                     if mm:
                         key = mm.group(1) or mm.group(2)
@@ -295,7 +301,7 @@ def _roundtrip(run, PV):
     npairs = 0
     for cq in classes:
         ci = P.cls(cq)
-        reads = _ctor_reads(run, ci)
+        reads = _ctor_reads(run, ci, PV)
         td = P.method(ci, "to_dict")
         g = A.cfg(td, ci)
         emitted = {}
